@@ -211,6 +211,8 @@ def op_term(op, st):
         return "OpMetaSet"
     if k == 'metaclear':
         return "OpMetaClear"
+    if k == 'metaop':
+        return "OpMetaSet" if op['method'] in ('update', 'setitem') else "OpMetaPop"
     raise ValueError(k)
 
 
